@@ -12,7 +12,7 @@
 (* Normalised events (records; fields beyond these are ignored):               *)
 (*   [ev "Call"|"Ret", op "Add", id]                                           *)
 (*   [ev "Call", op "Collect"|"FF"|"SD", proc, rd]                             *)
-(*   [ev "Ret",  op "Collect", proc, rd, err, one, dup, bad, iv]               *)
+(*   [ev "Ret",  op "Collect", proc, rd, err, one, dup, bad, iv (, split)]     *)
 (*   [ev "Ret",  op "FF"|"SD", proc, rd, err]                                  *)
 (*   [ev "Export", rd, src, one, dup, bad, iv]  src = "run" | proc of Shutdown *)
 (*   [ev "CbErr", src]   an observable callback returned an error (logged inside *)
@@ -51,6 +51,8 @@ Keys(S) == {Key(x) : x \in S}
 ReportViols(m, rd, R, e) ==
   LET temp == m.cfg[rd].temp IN
   (IF e.bad THEN {[kind |-> "undecodable-sum", rd |-> rd]} ELSE {})
+  \cup (IF "split" \in DOMAIN e /\ e.split # {}     \* one stream (instrument identity, attribute set) in two data points
+          THEN {[kind |-> "stream-reported-twice", rd |-> rd, keys |-> e.split]} ELSE {})
   \cup (IF e.dup # {} THEN {[kind |-> "double-counted", rd |-> rd, temp |-> temp, ids |-> e.dup]} ELSE {})
   \cup (IF R \ m.called # {} THEN {[kind |-> "phantom", rd |-> rd, ids |-> R \ m.called]} ELSE {})
   \cup (IF temp = "delta" /\ R \cap m.covered[rd] # {}
